@@ -11,7 +11,7 @@ RULE = ("Cases: histories of 2..5 fully consumed imap / imap_unordered calls on 
         "from an earlier call is recognisable. Run under the harness-owned scheduler (schedule generated; the pipe-queue delivery step "
         "makes the order 'retiring worker's id' vs 'stop token' a generated choice). Oracle per call: C01's value oracle and C02's "
         "deadlock oracle; between calls no result/work chunk left in any queue; at the end the pool context is left. E5: every "
-        "schedule with <=1 (quick) / <=2 (thorough) deviations for four small configurations. Non-trivial: >=2 calls and (a worker was "
+        "schedule with <=1 (quick) / <=2 (thorough) deviations for four small configurations, plus every schedule with <=2 deviations placed right before accesses to attributes of the pool object (preemption also inside a source line) for two small configurations. Non-trivial: >=2 calls and (a worker was "
         "replaced, or an empty call followed a non-empty one, or the schedule deviates from the base policy). "
         "Distinct = distinct (configuration, interleaving signature).")
 EXPLANATION = "exhaustive sub-domain: all schedules with <=b deviations from two base policies for the listed small configurations"
@@ -67,9 +67,15 @@ SMALL = [
 ]
 
 
+SHARED = [
+    {"pool": "factory", "workers": 1, "quota": 1, "wq": "1.0", "rq": None, "calls": [_c(1), _c(1)], "_drawn": False},
+    {"pool": "functor", "workers": 1, "quota": None, "wq": "1.0", "rq": None, "calls": [_c(1, inp="gen"), _c(0), _c(1, "u")], "_drawn": False},
+]
+
+
 def enumerations(tier):
     b = 2 if tier == "thorough" else 1
-    return [("all-schedules-<=%d-deviations-4-small-configs" % b, PC.sweep(SMALL, b, thin=3 if b == 2 else 1), b == 1)]
+    return [("all-schedules-<=2-deviations-at-shared-attribute-accesses-2-small-configs", PC.sweep_shared(SHARED), True),("all-schedules-<=%d-deviations-4-small-configs" % b, PC.sweep(SMALL, b, thin=3 if b == 2 else 1), b == 1)]
 
 
 def strategies(tier):
